@@ -216,13 +216,15 @@ func (t *fakeToken) Close() error                   { return nil }
 func (t *fakeToken) Ping(ctx context.Context) error { return nil }
 func (t *fakeToken) Config() *config.TokenConfig    { c, _ := t.cfg.GetToken(t.name); return c }
 func (t *fakeToken) GetKey(ctx context.Context, keyName string) (token.Key, error) {
-	record("getkey:" + t.name + ":" + keyName)
-	// the entry itself: how a token resolves the name further is outside the model
-	kc := t.cfg.Keys[keyName]
-	if kc == nil {
-		return nil, errors.New("fake token: no such key entry")
+	// every real token (file, PKCS#11, cloud, worker, scd) resolves the name it is handed through config.GetKey once
+	// more; the event carries the name of the entry the token ends up using
+	kc, err := t.cfg.GetKey(keyName)
+	if err != nil {
+		record("getkey-failed:" + t.name + ":" + keyName)
+		return nil, err
 	}
-	return &fakeKey{tok: t, name: keyName, kc: kc}, nil
+	record("getkey:" + t.name + ":" + kc.Name())
+	return &fakeKey{tok: t, name: kc.Name(), kc: kc}, nil
 }
 func (t *fakeToken) Import(string, crypto.PrivateKey) (token.Key, error) {
 	return nil, errors.New("not implemented")
